@@ -142,6 +142,16 @@ static void gen_srv_mood(vsrv_t *s, int mood, vh_rng_t *rng)
   (void)rng;
 }
 
+static void gen_srv_mood_fwd(int srv, int moodidx)
+{
+  static const int moods[] = { MOOD_GOOD, MOOD_GOOD, MOOD_SILENT, MOOD_ERR, MOOD_FLAKY, MOOD_NEG, MOOD_RESET };
+  if (srv >= 0 && srv < sim_nsrv) {
+    gen_srv_mood(&sim_srv[srv], moods[moodidx % 7], NULL);
+    sim_srv[srv].w_udp[SA_DUP] = 0;
+    sim_srv[srv].w_udp[SA_TC]  = 0;
+  }
+}
+
 /* name pool ----------------------------------------------------------- */
 static void gen_name(char *out, size_t outlen, vh_rng_t *rng, int uniq, int allow_weird)
 {
